@@ -32,6 +32,9 @@ MATHCH = "abxyz012^_+-= "
 
 
 def rand_text(r):
+    if r.random() < 0.08:
+        # a value that is nothing but one URL, with characters the encoder rewrites
+        return r.choice(["http://", "https://", "www."]) + "".join(r.choice(URLCH) for _ in range(r.randint(1, 6))) + r.choice([".org/a_b", ".com/x#y_z", ".io"])
     parts = []
     for _ in range(r.randint(1, 4)):
         k = r.random()
@@ -44,7 +47,8 @@ def rand_text(r):
     return " ".join(parts)
 
 
-ENC_OPTS = [{}, {"keep_math": True}, {"enclose_urls": True}, {"keep_math": True, "enclose_urls": True}]
+ENC_OPTS = [{}, {"keep_math": True}, {"enclose_urls": True}, {"keep_math": True, "enclose_urls": True}, {"enclose_urls": False}, {"keep_math": False},
+            {"keep_math": False, "enclose_urls": False}, {"keep_math": True, "enclose_urls": False}]
 SCOPE_ENC_OPTS = ENC_OPTS + [{"keep_math": False}, {"enclose_urls": False}, {"keep_math": False, "enclose_urls": False}]
 SCOPE_DEC_OPTS = [{}, {"keep_braced_groups": True}, {"keep_math_mode": False}, {"keep_braced_groups": True, "keep_math_mode": False}, {"keep_braced_groups": False, "keep_math_mode": True}]
 
@@ -67,8 +71,9 @@ def cases(tier, seed, shard, nshards):
 _DIRECT = None
 
 
-def direct_roundtrip(t):
-    """pylatexenc called directly (its own defaults): does the third party round-trip t?"""
+def direct_roundtrip(t, mask_math=True, mask_url=True):
+    """pylatexenc called directly (its own defaults): does the third party round-trip t?  Math spans and
+    URLs are masked only when the repository's own rule protects them under the options in use."""
     global _DIRECT
     if _DIRECT is None:
         from pylatexenc.latex2text import LatexNodes2Text
@@ -76,8 +81,8 @@ def direct_roundtrip(t):
         _DIRECT = (UnicodeToLatexEncoder(), LatexNodes2Text(math_mode="verbatim"))
     try:
         # math spans and urls are protected by the repository's own rules: calibrate the rest
-        plain = re.sub(r"\$[^$]*\$", "M", t)
-        plain = re.sub(r"(https?://|www\.)\S*", "U", plain)
+        plain = re.sub(r"\$[^$]*\$", "M", t) if mask_math else t
+        plain = re.sub(r"(https?://|www\.)\S*", "U", plain) if mask_url else plain
         return _DIRECT[1].latex_to_text(_DIRECT[0].unicode_to_latex(plain)) == plain
     except Exception:
         return False
@@ -120,10 +125,20 @@ def mk_library(texts, with_np=True, order=None, np_only=None):
     return Library(blocks)
 
 
+_INSTANCES = {}
+
+
 def make(which, opts, inplace, **extra):
+    """Default-configured instances are re-used across cases (state carried from one library to the next
+    would show); instances with injected converters are fresh."""
     from bibtexparser.middlewares import LatexDecodingMiddleware, LatexEncodingMiddleware
     cls = LatexEncodingMiddleware if which == "enc" else LatexDecodingMiddleware
-    return cls(allow_inplace_modification=inplace, **opts, **extra)
+    if extra:
+        return cls(allow_inplace_modification=inplace, **opts, **extra)
+    key = repr((which, sorted(opts.items()), inplace))
+    if key not in _INSTANCES:
+        _INSTANCES[key] = cls(allow_inplace_modification=inplace, **opts)
+    return _INSTANCES[key]
 
 
 ALLOWED = re.compile(r"^(\._blocks\[\d+\]|\._entries_by_key\{[^}]*\}|\._strings_by_key\{[^}]*\})"
@@ -136,7 +151,9 @@ def nontriv_text(t):
 
 def check_rt(case, ctx):
     texts = [t for t in case["texts"]]
-    good = [t for t in texts if in_quantifier(t) and direct_roundtrip(t)]
+    mm = case["opts"].get("keep_math", True) is not False
+    mu = case["opts"].get("enclose_urls", True) is not False
+    good = [t for t in texts if in_quantifier(t) and direct_roundtrip(t, mm, mu) and (mm or "$" not in t or direct_roundtrip(t, False, mu))]
     ctx.note("texts_outside_calibrated_alphabet", len(texts) - len(good))
     if len(good) < 3:
         good = (good + ["plain text"] * 3)[:3]
@@ -154,6 +171,7 @@ def check_rt(case, ctx):
     if st == "raise":
         return [Violation("raised", f"C18:decode-raised:{l2.split(':')[0]}", dict(texts=good, error=l2))]
     ents = [b for b in l2.blocks if sp.block_kind(b) == "entry"]
+    ctx.state("rt:" + ",".join(f"{k}={v}" for k, v in sorted(case["opts"].items())))
     if len(ents) != 2 or sp.block_kind(l2.blocks[0]) != "string":
         kinds = [sp.block_kind(b) for b in l2.blocks]
         return [Violation("error-on-valid-text", "C18:roundtrip:error-block-on-calibrated-text", dict(texts=good, kinds=kinds,
